@@ -264,7 +264,7 @@ def run(tier, seed, build=True):
                 if s.truth_mismatch:
                     res.violation({"symptom": "datetime-field-differs-from-written-instant", "sources": sname},
                                   "%s: -u -d %%Y%%m%%dT%%H%%M%%S%%.9f prints %s for messages written at %s (epoch ns)" % (p, s.truth_mismatch[0][:6], s.truth_mismatch[1][:6]),
-                                  {"engine": "E-CLI", "args": list(oracle.DEC_ARGS) + ["-t", "+00:00", p], "tree": sname, "expected_stdout": "", "note": "compare the datetime fields with the stamps in the file"})
+                                  {"engine": "E-CLI", "args": list(oracle.DEC_ARGS) + ["-t", "+00:00", p], "tree": sname, "truth_source": p})
             use = opts if sname != "s3" else opts[::7]
             bszs = [None] if sname not in ("s5", "s6") else [None, 64]
             if sname == "s6" and tier == "quick":
@@ -332,6 +332,14 @@ def replay(path, build=True):
     try:
         sets = build_sets(work, "thorough")
         wd = os.path.join(work, r["tree"])
+        if r.get("truth_source"):
+            known = [k for n, _p, k in sets if n == r["tree"]][0]
+            src = load_source(wd, r["truth_source"], known.get(r["truth_source"]))
+            common.log("datetime fields vs written instants: %s" % ("differ %s" % (src.truth_mismatch,) if src.truth_mismatch else "equal"))
+            if src.truth_mismatch:
+                common.log("VIOLATION property=%s replay=%s" % (PROP, path))
+                return common.EXIT_VIOLATION
+            return common.EXIT_OK
         x = common.run_s4(r["args"], cwd=wd)
         got = ESC.sub(b"", x.out) if r.get("strip_colour") else x.out
         exp = base64.b64decode(r["expected_stdout"])
